@@ -95,6 +95,13 @@ def build_indicator_task(spec, variant):
             kwargs[k] = v
         i = z3.Int("i")
         env["i"] = SInt(i)
+        # parameter preconditions hold while the constructor and _initialise run
+        for label, src in spec.extra_pre.items():
+            try:
+                v = SpecEval(ex, st0, env).ev(src)
+            except Unsupported:
+                continue
+            assume_spec(ex, st0, v, f"pre:{label}")
         for st1, obj in instantiate(ex, cls, [], kwargs, st0, None):
             p = st1.heap[series.oid]
             st1.assume(z3.And(i >= 0, i < p.length))
@@ -419,15 +426,9 @@ def run_indicator_task(source, contracts, loops, spec, variant, natives=None, ti
     res.edges = sorted(ctx.edges)
     res.assumptions = sorted(ctx.assumptions)
     t1 = time.time()
-    for ob in ctx.obligations:
-        r = check(ob, ctx, timeout_ms=timeout_ms)
-        d = {"id": ob.id, "kind": ob.kind, "label": ob.label, "lineno": ob.lineno, "path": ob.path,
-             "props": ob.props, "status": r["status"], "backend": r.get("backend"), "time": round(r["time"], 4)}
-        if "model" in r:
-            d["model"] = r["model"]
-        if "reason" in r:
-            d["reason"] = r["reason"]
-        res.obligations.append(d)
+    from .solve import solve_all
+
+    res.obligations = solve_all(ctx, ctx.obligations, timeout_ms)
     res.solve_s = time.time() - t1
     res._ctx = ctx
     return res
